@@ -46,3 +46,36 @@ func VerifC12Set() {
 		verifrt.Assert(resp != nil, "response-or-status")
 	}
 }
+
+// VerifC12Subscribe: any decodable subscribe / poll message (prefix and paths may be absent) is answered.
+func VerifC12Subscribe() {
+	stream := &c19Stream{}
+	n := verifrt.Fork("nmsg", 2) + 1
+	for i := 0; i < n; i++ {
+		switch verifrt.Fork("kind"+"01"[i:i+1], 4) {
+		case 0:
+			sl := &gnmi.SubscriptionList{}
+			if !verifrt.NondetBool("prefix.absent") {
+				sl.Prefix = &gnmi.Path{Target: vGenTarget("prefix.target")}
+			}
+			ne := verifrt.Fork("nentries"+"01"[i:i+1], 3)
+			for k := 0; k < ne; k++ {
+				e := &gnmi.Subscription{}
+				if !verifrt.NondetBool("path.absent") {
+					e.Path = &gnmi.Path{Target: vGenTarget("path.target")}
+				}
+				sl.Subscription = append(sl.Subscription, e)
+			}
+			stream.script = append(stream.script, &gnmi.SubscribeRequest{Request: &gnmi.SubscribeRequest_Subscribe{Subscribe: sl}})
+		case 1:
+			stream.script = append(stream.script, &gnmi.SubscribeRequest{Request: &gnmi.SubscribeRequest_Poll{Poll: &gnmi.Poll{}}})
+		case 2:
+			stream.script = append(stream.script, &gnmi.SubscribeRequest{})
+		default:
+			stream.script = append(stream.script, &gnmi.SubscribeRequest{Request: &gnmi.SubscribeRequest_Subscribe{}})
+		}
+	}
+	srv := &Server{conns: &c19Conns{}}
+	_ = srv.Subscribe(stream)
+	verifrt.Cover("stream-ended")
+}
